@@ -15,7 +15,7 @@ def runs_for(prop, tier):
     table = {
         "C01": [R("capacity", 1.5), R("core"), R("reserve", .7), R("gang")],
         "C02": [R("core"), R("reload"), R("dyn"), R("capacity", .5), R("gang")],
-        "C03": [R("core"), R("gang"), R("capacity", .6), R("preempt", .6)],
+        "C03": [R("core"), R("gang"), R("capacity", .6), R("preempt", .6), R("extbind", .5)],
         "C04": [R("core"), R("gang"), R("preempt", .6)],
         "C05": [R("limits", 1.5), R("core", .5)],
         "C06": [R("gang", 2), R("core", .5)],
